@@ -19,8 +19,14 @@ def load_tables():
         return json.load(f)
 
 
-def lastseg(n):
+def rawseg(n):
     return n.split("::")[-1] if n else ""
+
+
+def lastseg(n):
+    """last segment with std meaning: crate functions are mangled (engine/names.py) — their name says nothing about what they do"""
+    from .names import stdseg
+    return stdseg(n)
 
 
 class Taint:
@@ -227,9 +233,9 @@ def sink_kind_of_call(cv):
     if n is None:
         return None
     if n in PANIC_CALL_EXACT:
-        return lastseg(n)
+        return rawseg(n)
     if n in ALLOC_SIZE_ARG:
-        return "alloc_" + lastseg(n)
+        return "alloc_" + rawseg(n)
     ls = lastseg(n)
     if ls in ("index", "index_mut") and ("ops::Index" in n):
         return ls
@@ -286,7 +292,7 @@ def collect_sinks(taint, skip_fn=lambda f: False):
                     kind = sink_kind_of_call(cv)
                     if kind:
                         ops = o.call_args(bi)
-                        out.append(Sink(f, b, bi, "call:" + kind, ops, b.where(bi), "%s(%s)" % (lastseg(cv.target or cv.short), ", ".join(show(a)[:70] for a in ops)), t.get("exp")))
+                        out.append(Sink(f, b, bi, "call:" + kind, ops, b.where(bi), "%s(%s)" % (rawseg(cv.target or cv.short), ", ".join(show(a)[:70] for a in ops)), t.get("exp")))
     return out
 
 
@@ -623,7 +629,7 @@ def range_discharge(sink, taint, op_types):
                 return True
         return False
     if kind.startswith("call:alloc_"):
-        name = next((n for n in ALLOC_SIZE_ARG if kind == "call:alloc_" + lastseg(n) and len(sink.ops) > ALLOC_SIZE_ARG[n]), None)
+        name = next((n for n in ALLOC_SIZE_ARG if kind == "call:alloc_" + rawseg(n) and len(sink.ops) > ALLOC_SIZE_ARG[n]), None)
         if name is None:
             return False
         size = sink.ops[ALLOC_SIZE_ARG[name]]
